@@ -1,1 +1,216 @@
 //! Verification hooks: heap layout (cargo feature `mmtk_verif`; add-only wrappers).
+
+/// Space descriptors from raw bits (the type is crate-private): decoders and the global counter.
+pub mod desc {
+    use crate::util::heap::space_descriptor::{self, SpaceDescriptor};
+
+    fn mk(raw: usize) -> SpaceDescriptor {
+        // SpaceDescriptor is repr(transparent) over usize.
+        unsafe { std::mem::transmute::<usize, SpaceDescriptor>(raw) }
+    }
+
+    /// Raw bits of a descriptor.
+    pub(crate) fn raw(d: SpaceDescriptor) -> usize {
+        unsafe { std::mem::transmute::<SpaceDescriptor, usize>(d) }
+    }
+
+    pub(crate) fn from_raw(raw: usize) -> SpaceDescriptor {
+        mk(raw)
+    }
+
+    /// `create_descriptor_from_heap_range(start, end)`, raw bits only.
+    pub fn create_from_heap_range(start: usize, end: usize) -> usize {
+        use crate::util::Address;
+        let (s, e) = unsafe { (Address::from_usize(start), Address::from_usize(end)) };
+        raw(SpaceDescriptor::create_descriptor_from_heap_range(s, e))
+    }
+
+    /// `create_descriptor()`, raw bits.
+    pub fn create_discontiguous() -> usize {
+        raw(SpaceDescriptor::create_descriptor())
+    }
+
+    /// Set the global discontiguous counter (`None` = its initial value).
+    pub fn set_discontiguous_counter(v: Option<usize>) {
+        space_descriptor::verif_set_discontiguous_index(
+            v.unwrap_or(space_descriptor::VERIF_DISCONTIG_INDEX_INCREMENT),
+        )
+    }
+
+    /// `is_empty`
+    pub fn is_empty(raw: usize) -> bool {
+        mk(raw).is_empty()
+    }
+    /// `is_contiguous`
+    pub fn is_contiguous(raw: usize) -> bool {
+        mk(raw).is_contiguous()
+    }
+    /// `is_contiguous_hi`
+    pub fn is_contiguous_hi(raw: usize) -> bool {
+        mk(raw).is_contiguous_hi()
+    }
+    /// `get_start`
+    pub fn get_start(raw: usize) -> usize {
+        mk(raw).get_start().as_usize()
+    }
+    /// `get_extent`
+    pub fn get_extent(raw: usize) -> usize {
+        mk(raw).get_extent()
+    }
+    /// `get_index`
+    pub fn get_index(raw: usize) -> usize {
+        mk(raw).get_index()
+    }
+}
+
+/// A private chunk-state mmapper (the global `MMAPPER` is not touched).
+pub mod csm {
+    use crate::util::heap::layout::verif_private::ChunkStateMmapper;
+    use crate::util::heap::layout::Mmapper;
+    use crate::util::os::{HugePageSupport, MmapAnnotation, MmapProtection};
+    use crate::util::Address;
+
+    /// Wrapper around a private `ChunkStateMmapper`.
+    pub struct Csm(ChunkStateMmapper);
+
+    impl Default for Csm {
+        fn default() -> Self {
+            Self::new()
+        }
+    }
+
+    impl Csm {
+        /// `ChunkStateMmapper::new()`
+        pub fn new() -> Self {
+            Csm(ChunkStateMmapper::new())
+        }
+        /// `quarantine_address_range(start, pages, No, test annotation)`; `Err` = the OS call failed.
+        pub fn quarantine(&self, start: Address, pages: usize) -> Result<(), String> {
+            self.0
+                .quarantine_address_range(start, pages, HugePageSupport::No, &MmapAnnotation::Test { file: file!(), line: line!() })
+                .map_err(|e| format!("{e:?}"))
+        }
+        /// `ensure_mapped(start, pages, No, ReadWrite, test annotation)`.
+        pub fn ensure_mapped(&self, start: Address, pages: usize) -> Result<(), String> {
+            self.0
+                .ensure_mapped(start, pages, HugePageSupport::No, MmapProtection::ReadWrite, &MmapAnnotation::Test { file: file!(), line: line!() })
+                .map_err(|e| format!("{e:?}"))
+        }
+        /// `mark_as_mapped(start, bytes)`.
+        pub fn mark_as_mapped(&self, start: Address, bytes: usize) {
+            self.0.mark_as_mapped(start, bytes)
+        }
+        /// `is_mapped_address(addr)`.
+        pub fn is_mapped_address(&self, addr: Address) -> bool {
+            self.0.is_mapped_address(addr)
+        }
+        /// Recorded state of a chunk-aligned address: 0 = Unmapped, 1 = Quarantined, 2 = Mapped.
+        pub fn get_state(&self, chunk: Address) -> u8 {
+            self.0.verif_get_state(chunk)
+        }
+        /// `log_mappable_bytes()`.
+        pub fn log_mappable_bytes(&self) -> u8 {
+            self.0.log_mappable_bytes()
+        }
+    }
+}
+
+/// Address-to-space resolution: a private `SFTSpaceMap`, private `Map64` / `Map32` descriptor maps.
+pub mod resolve {
+    pub use crate::policy::sft_map::verif_hooks::SpaceMap;
+    use crate::util::heap::layout::verif_private::{Map32, Map64};
+    use crate::util::heap::layout::VMMap;
+    use crate::util::Address;
+
+    /// A private VM map: `Map64::new()` or `Map32::new()`.
+    pub struct VmMap(Box<dyn VMMap>);
+
+    impl VmMap {
+        /// `Map64::new()`
+        pub fn new64() -> Self {
+            VmMap(Box::new(Map64::new()))
+        }
+        /// `Map32::new()`
+        pub fn new32() -> Self {
+            VmMap(Box::new(Map32::new()))
+        }
+        /// `insert(start, extent, descriptor)` with a raw descriptor.
+        pub fn insert(&self, start: Address, extent: usize, raw_descriptor: usize) {
+            self.0.insert(start, extent, super::desc::from_raw(raw_descriptor))
+        }
+        /// `get_descriptor_for_address(addr)`, raw bits (may panic: that is what C31 probes).
+        pub fn get_descriptor_for_address(&self, addr: Address) -> usize {
+            super::desc::raw(self.0.get_descriptor_for_address(addr))
+        }
+    }
+
+    /// The process-global `VM_MAP.get_descriptor_for_address(addr)`, raw bits.
+    pub fn global_descriptor_for_address(addr: Address) -> usize {
+        super::desc::raw(crate::mmtk::VM_MAP.get_descriptor_for_address(addr))
+    }
+}
+
+/// A private `Map32` (the 32-bit-style VM map, also used for compressed-pointer layouts).
+pub mod map32 {
+    use crate::util::heap::layout::verif_private::Map32;
+    use crate::util::heap::layout::VMMap;
+    use crate::util::Address;
+
+    /// `Map32::free_contiguous_chunks_no_lock` clears the *global* `SFT_MAP`; make sure it exists
+    /// (idempotent; same call as `MMTK::new`).
+    pub fn ensure_global_sft_map() {
+        crate::mmtk::SFT_MAP.initialize_once(&crate::policy::sft_map::create_sft_map);
+    }
+
+    /// Wrapper around a private `Map32`.
+    pub struct M32(Map32);
+
+    impl Default for M32 {
+        fn default() -> Self {
+            Self::new()
+        }
+    }
+
+    impl M32 {
+        /// `Map32::new()`
+        pub fn new() -> Self {
+            M32(Map32::new())
+        }
+        /// `finalize_static_space_map(from, to, |_| {})`
+        pub fn finalize(&self, from: Address, to: Address) {
+            self.0.finalize_static_space_map(from, to, &mut |_| {})
+        }
+        /// `allocate_contiguous_chunks(descriptor, chunks, head, None)` with a raw descriptor.
+        pub fn allocate(&self, raw_descriptor: usize, chunks: usize, head: Address) -> Address {
+            unsafe { self.0.allocate_contiguous_chunks(super::desc::from_raw(raw_descriptor), chunks, head, None) }
+        }
+        /// `free_contiguous_chunks(start)`
+        pub fn free(&self, start: Address) -> usize {
+            unsafe { self.0.free_contiguous_chunks(start) }
+        }
+        /// `free_all_chunks(any_chunk)`
+        pub fn free_all(&self, any_chunk: Address) {
+            self.0.free_all_chunks(any_chunk)
+        }
+        /// `get_next_contiguous_region(start)`
+        pub fn next_region(&self, start: Address) -> Address {
+            self.0.get_next_contiguous_region(start)
+        }
+        /// `get_contiguous_region_chunks(start)`
+        pub fn region_chunks(&self, start: Address) -> usize {
+            self.0.get_contiguous_region_chunks(start)
+        }
+        /// `get_available_discontiguous_chunks()`
+        pub fn available(&self) -> usize {
+            self.0.get_available_discontiguous_chunks()
+        }
+        /// `get_descriptor_for_address(addr)`, raw bits.
+        pub fn descriptor(&self, addr: Address) -> usize {
+            super::desc::raw(self.0.get_descriptor_for_address(addr))
+        }
+        /// `prev_link[chunk]` (verification accessor).
+        pub fn prev_link(&self, chunk: usize) -> i32 {
+            self.0.verif_prev_link(chunk)
+        }
+    }
+}
